@@ -208,6 +208,65 @@ def run(tier, seed, replay=None):
         for (desc, r), m in zip(replay_meta, res):
             if r != m[0]: V.fail("correspondence(model/impl) rank decision in a DMRG sweep", dict(desc, impl=r, model=m[0]), failing_input=False)
             else: n_ok += 1
+    # ---- the local step of the AMEn products against Model/Local.v (exact, integer data): _compute_phi_fwd_AB / _compute_phi_bck_AB / _local_AB of
+    # torchtt/_amen.py in the matrix-vector case (column modes of size 1), the functions theorems C11_amen_local_update / C11_amen_update_exact are about
+    rng_l = random.Random(seed + 71)
+    lcases, lmeta = [], []
+    def ia(shape): return np.array([rng_l.randint(-2, 2) for _ in range(int(np.prod(shape)))], dtype=np.float64).reshape(shape)
+    def zl(a_): return coqrun.zlist(np.asarray(a_).reshape(-1))
+    def o3(a_): return "(%d%%nat,%d%%nat,%d%%nat,%s)" % (a_.shape[0], a_.shape[1], a_.shape[2], zl(a_))
+    def o4(a_): return "(%d%%nat,%d%%nat,%d%%nat,%d%%nat,%s)" % (a_.shape[0], a_.shape[1], a_.shape[2], a_.shape[3], zl(a_))
+    T_ = lambda a_: torch.tensor(a_, dtype=torch.float64)
+    for j in range(30 if tier == "quick" else 300):
+        ry, rY, ra_, rA, rb_, rB = [rng_l.choice([1, 2, 3]) for _ in range(6)]; m_, k_ = rng_l.choice([1, 2, 3]), rng_l.choice([1, 2, 3])
+        kind_ = ["phi_fwd_AB", "phi_bck_AB", "local_AB"][j % 3]
+        try:
+            y_, A_, b_ = ia((ry, m_, rY)), ia((ra_, m_, k_, rA)), ia((rb_, k_, rB))
+            if kind_ == "phi_fwd_AB":
+                P_ = ia((ry, ra_, rb_)); out = AM._compute_phi_fwd_AB(T_(P_), T_(A_), T_(b_)[:, :, None, :], T_(y_)[:, :, None, :])
+                lcases.append("[check_phi_fwd (R:=Z) %d %d %s %s %s %s %s]" % (ra_, rb_, zl(P_), o3(y_), o4(A_), o3(b_), zl(out.numpy())))
+            elif kind_ == "phi_bck_AB":
+                P_ = ia((rY, rA, rB)); out = AM._compute_phi_bck_AB(T_(P_), T_(A_), T_(b_)[:, :, None, :], T_(y_)[:, :, None, :])
+                lcases.append("[check_phi_bck (R:=Z) %d %d %s %s %s %s %s]" % (rA, rB, zl(P_), o3(y_), o4(A_), o3(b_), zl(out.numpy())))
+            else:
+                PL_, PR_ = ia((ry, ra_, rb_)), ia((rY, rA, rB)); out = AM._local_AB(T_(PL_), T_(PR_), T_(A_), T_(b_)[:, :, None, :])
+                lcases.append("[check_local_product2 (R:=Z) %d %d %d %d %s %s %d %d %s %s %s]" % (ry, rY, ra_, rb_, zl(PL_), o4(A_), rA, rB, zl(PR_), o3(b_), zl(out.numpy())))
+            lmeta.append({"local_correspondence": kind_, "case": j})
+        except Exception as ex:
+            V.fail("local correspondence: %s raises %s" % (kind_, type(ex).__name__), {"kind": kind_, "exc": str(ex)[:200]}, failing_input=False)
+    n_local = 0
+    if ok_make and lcases:
+        try:
+            codes = coqrun.eval_nat_lists("C11_local", "From TT Require Import RingSig Instances Core Local.", "", lcases, shard=60)
+            for dsc, c in zip(lmeta, codes):
+                if c != [0]: V.fail("correspondence(model/impl): %s of torchtt/_amen.py differs from Model/Local.v" % dsc["local_correspondence"], dict(dsc, model_code=c, expr=lcases[dsc["case"]][:1500]))
+                else: n_local += 1
+        except Exception as ex:
+            V.fail("local correspondence: the model could not be evaluated", {"exc": str(ex)[:300]}, failing_input=False)
+    dist["AMEn local step / interface recursions exact"] = n_local
+    # ---- theorem C11_amen_update_exact on the routine itself: a guess whose frame carries the exact product (the cores of the exact product with the
+    # first core replaced by noise, or the exact product times a factor) is turned into the exact product by ONE sweep, to round-off - not just to eps
+    rng_e = random.Random(seed + 73); n_exact = 0
+    for j in range(8 if tier == "quick" else 80):
+        d = rng_e.choice([2, 3, 4]); N = [rng_e.choice([2, 3, 4]) for _ in range(d)]; M = [rng_e.choice([1, 2, 3]) for _ in range(d)]
+        mm_ = j % 4 == 3; K = [rng_e.choice([1, 2]) for _ in range(d)]
+        sd = rng_e.randrange(1 << 30); torch.manual_seed(sd)
+        desc = {"routine": "amen_mm" if mm_ else "amen_mv", "family": "representable guess, one sweep", "d": d, "N": N, "M": M, "torch_seed": sd, "case": j}
+        try:
+            A = solverkit.rand_ttm_float(rng_e, M, N, solverkit.ranks(rng_e, d, 2), torch.float64, False, False)
+            x = solverkit.rand_ttm_float(rng_e, N, K, solverkit.ranks(rng_e, d, 2), torch.float64, False, False) if mm_ else solverkit.rand_tt_float(rng_e, N, solverkit.ranks(rng_e, d, 2), torch.float64, False, False)
+            exact = A @ x; g = exact.round(1e-14)
+            gc = [c.clone() for c in g.cores]
+            if j % 2 == 0: gc[0] = torch.randn(gc[0].shape, dtype=torch.float64)
+            else: gc[0] = gc[0] * 0.3
+            guess = torchtt.TT(gc)
+            y = torchtt.amen_mm(A, x, X0=guess, nswp=1, eps=1e-12) if mm_ else torchtt.amen_mv(A, x, x0=guess, nswp=1, eps=1e-12)
+            err = float(torch.linalg.norm(y.full() - exact.full()) / torch.linalg.norm(exact.full()))
+            n_exact += 1
+            if not err <= 1e-10: V.fail("%s: one sweep from a guess whose frame carries the exact product misses it (relative error %.3g)" % (desc["routine"], err), dict(desc, rel_err=err))
+        except Exception as ex:
+            V.fail("%s with a representable guess raises %s" % (desc["routine"], type(ex).__name__), dict(desc, exc=str(ex)[:200]))
+    dist["representable guess: one sweep exact"] = n_exact
     nviol = V.finish()
     cov = proofcheck.coverage(PID, obl, evaluations=n, distinct_nontrivial=len(set(json.dumps(s_, sort_keys=True) for s_, _ in replay_meta)) + sum(1 for _ in dist),
         rule=("fast_matvec, dmrg_hadamard, amen_mv, amen_mm on random exact-rank and decaying-spectrum operands of order 1..6, mode sizes 1..6, ranks 1..4, eps 1e-12..1e-1, random "
